@@ -53,14 +53,8 @@ def client_nontrivial(op, out):
     return out not in ('reset', '-')
 
 
-def early_ack(prefix, impl=None, spec=None):
-    """E5: an acknowledgement processed between the write of a request and its registration is lost;
-    everything after such an event in the episode is affected (the request stays in its queue)."""
-    return any(op.split()[1:2] == ['early'] for op in prefix)
-
-
 CLIENT_ASSUMPTIONS = [
-    "one event = one atomic step; the ack-before-registration interleaving is an explicit composite event forced on the real code through the verif ack-window hook",
+    "one event = one atomic step; an acknowledgement that arrives between the write of a request and its registration is an explicit composite event, forced on the real code through the verif ack-window hook: the harness holds the sending call inside the window, sends the acknowledgement and a PINGREQ behind it, and lets the call go when the PINGRESP arrives or after 15 ms (the repaired library holds the acknowledgement back until the registration, service.ackmu, so the PINGRESP cannot arrive earlier); that the acknowledgement cannot be processed inside the window is proved on the small-step model of the two critical sections (C12_ack_waits_for_registration) whose programs are tied to the source by extracted facts (C12_ack_lock_structure_is_source)",
     "the peer is scripted over TCP on 127.0.0.1; a PINGREQ/PINGRESP barrier from the peer bounds each event",
     "the interleaving between packets the peer receives and callbacks firing inside one event is not observable: outputs are compared as (packets in order, completions in order, message callbacks as a multiset)",
     "ack queues are the FIFO lists of Spec.Fifo (justified by C13); completion order is the FIFO order (the latest the property permits)",
@@ -76,7 +70,7 @@ def mk(pid, runs):
     register(Prop(pid, 'Mqtt.Properties.' + pid, ['client', 'ackq'], runs=runs,
                   oracle=by_core({'client': client_oracle, 'ackq': ackq_oracle}),
                   nontrivial=by_core({'client': client_nontrivial, 'ackq': ackq_nontrivial}),
-                  spec_total=False, classes={'early_ack': early_ack},
+                  spec_total=False, classes={},
                   assumptions=CLIENT_ASSUMPTIONS, trusted=COMMON_TRUSTED))
 
 
@@ -97,5 +91,4 @@ if _c02 is not None:
                                    Run('ackq', quick=40000, thorough=300000, seeds_thorough=4)]
     _c02.oracle = by_core({'broker': _pb.broker_oracle, 'client': client_oracle, 'ackq': ackq_oracle})
     _c02.nontrivial = by_core({'broker': _pb.broker_nontrivial, 'client': client_nontrivial, 'ackq': ackq_nontrivial})
-    _c02.classes = dict(_c02.classes, early_ack=early_ack)
     _c02.assumptions = list(_c02.assumptions) + CLIENT_ASSUMPTIONS
